@@ -367,9 +367,68 @@ Section LleModel.
   Definition hlle_local_sf (shipped : bool) (k d : nat) (prev V : mat) : mat :=
     hlle_local_of d (hlle_gs_sf shipped k d prev V).
 
+  (* ---- variant "the Gram-Schmidt loop starts at column `start`" (wave 4): the first `start` columns are used as
+         they are (taken to be mutually orthogonal), only the later ones are orthogonalised against everything
+         before them.  start = 0 is hessian_weight_matrix as written (hlle_gs_sf false);  start = 1 + d is the
+         rewrite "the constant column and the eigenvectors of the centred Gram matrix are already orthogonal",
+         which is what tangent_weight_matrix assumes of its G.  Lle_Proof_GsSkip: the all-columns loop keeps 1
+         and every tangent column in the local null space WHATEVER the tangent columns are; the variant that
+         skips the first 1 + d columns does so only when those columns are mutually orthogonal, and is refuted
+         on a legitimate answer of the local solver for collinear neighbours (eigenvectors of eigenvalue 0 need
+         not be orthogonal to 1). ---- *)
+  Definition with_norms (k : nat) (cols : list vec) : list (vec * F) :=
+    map (fun v => (v, dot k v v)) cols.
+
+  Definition hlle_gs_sf_from (start k d : nat) (prev V : mat) : list (vec * F) :=
+    let cols := cols_of k (hlle_ncols d) (hlle_Yprod false d prev V) in
+    mgs_sf k (with_norms k (firstn start cols)) (skipn start cols).
+
+  Definition hlle_local_sf_from (start k d : nat) (prev V : mat) : mat :=
+    hlle_local_of d (hlle_gs_sf_from start k d prev V).
+
   (* some column has squared norm 0: the C++ divides by a norm that is 0 up to rounding *)
   Definition gs_degenerate (fz : F -> bool) (U : list (vec * F)) : bool :=
     existsb (fun un => fz (snd un)) U.
+
+  (* ================= KLTSA after repair F51 (tangent_weight_matrix, /repo d8ef193) =================
+       G.rightCols(d) = eigenvectors().rightCols(d);
+       for (i = 1; i < G.cols(); i++) {
+           for (j = 0; j < i; j++) { r = G.col(i).dot(G.col(j)); G.col(i) -= r * G.col(j); }
+           G.col(i) /= G.col(i).norm(); }
+       gram_matrix = G * G^T;
+     in the sqrt-free form of mgs_sf (G G^T = sum_c u_c u_c^T / (u_c . u_c)).  Column 0 = rsk * 1 is not
+     touched by the loop and is USED AS A UNIT VECTOR (r is not divided by its squared norm, and it enters
+     G G^T as rsk^2): it is stored with squared norm 1; that k * rsk^2 = 1 is the contract of the sqrt oracle.
+     ltsa_P / ltsa_model above are the code BEFORE the repair (no loop): kept as the regression model
+     (Lle_Proof_LtsaGs.ltsa_no_gs_refuted). *)
+  Definition ltsa_gs_sf (k d : nat) (rsk : F) (V : mat) : list (vec * F) :=
+    mgs_sf k [(memo_vec k (fun _ => rsk), 1)] (cols_of k d V).
+
+  Definition ltsa_P_gs (k d : nat) (rsk : F) (V : mat) : mat :=
+    outer_sum_sf (ltsa_gs_sf k d rsk V).
+
+  (* local matrices G G^T (k x k tables) of samples 0 .. n-1, or the first sample whose loop divides by 0 *)
+  Fixpoint ltsa_all_locals (fz : F -> bool) (k d : nat) (rsk : F) (V : nat -> mat) (n : nat)
+    : result (list (list (list F))) :=
+    match n with
+    | O => Ok []
+    | S n' =>
+        match ltsa_all_locals fz k d rsk V n' with
+        | Ok Ps =>
+            let U := ltsa_gs_sf k d rsk (V n') in
+            if gs_degenerate fz U then SolveFail n'
+            else Ok (Ps ++ [mtab k k (outer_sum_sf U)])
+        | e => e
+        end
+    end.
+
+  Definition ltsa_model_gs (fz : F -> bool) (N k d : nat) (nbr : nat -> nat -> nat) (E : nat -> mat)
+             (rsk shift : F) : result (list triplet) :=
+    match ltsa_all_locals fz k d rsk (fun i => right_cols k d (E i)) N with
+    | Ok Ps => Ok (ltsa_triplets (seq 0 N) k nbr (fun i => mof (nth i Ps [])) shift)
+    | OOB s i n => OOB s i n
+    | SolveFail i => SolveFail i
+    end.
 
   (* local matrices (k x k tables) of samples 0 .. n-1, or the first degenerate sample *)
   Fixpoint hlle_all_locals (fz : F -> bool) (shipped : bool) (k d : nat) (V prev : nat -> mat) (n : nat)
@@ -422,6 +481,20 @@ Section LleModel.
         | Some (s, i, n) => OOB s i n
         | None =>
             if Nat.leb d k then Ok (ltsa_model N k d (nbrs_of L) E rsk shift)
+            else OOB site_right_cols d k
+        end
+    end.
+
+  (* the routine as it is after repair F51 *)
+  Definition ltsa_run_gs (fz : F -> bool) (N d : nat) (L : list (list nat)) (E : nat -> mat) (rsk shift : F)
+    : result (list triplet) :=
+    match k_of L with
+    | None => OOB site_neighbors0 0 0
+    | Some k =>
+        match check_lists N k L N with
+        | Some (s, i, n) => OOB s i n
+        | None =>
+            if Nat.leb d k then ltsa_model_gs fz N k d (nbrs_of L) E rsk shift
             else OOB site_right_cols d k
         end
     end.
